@@ -64,6 +64,7 @@ func cmdGen(args []string) {
 	dir := fs.String("dir", "", "database directory")
 	seed := fs.Uint64("seed", 1, "seed")
 	days := fs.Int("days", 150, "days per interface")
+	bulk := fs.Int("bulk", 300, "additional flows in the first block of every third day of e0 (long evaluations that overlap between workers)")
 	fs.Parse(args)
 	rng := hx.NewRNG(*seed*131 + 5)
 	var db query.DB
@@ -95,6 +96,14 @@ func cmdGen(args []string) {
 						c[0], c[2] = 0, 0
 					}
 					blk.Recs = append(blk.Recs, query.Rec{F: pool[i], C: c})
+				}
+				if k == 0 && b == 0 && d%3 == 0 {
+					// many flows, alternately inside and outside 10.128.0.0/9 (and 10.0.0.0/9 for the destination)
+					for i := 0; i < *bulk; i++ {
+						f := cond.Flow{Fam: 4, SIP: []int{10, []int{200, 0, 129, 127}[i%4], i >> 8, i & 255}, DIP: []int{10, []int{0, 128}[(i/4)%2], 1, 1},
+							Dport: 1000 + i%7, Proto: 6}
+						blk.Recs = append(blk.Recs, query.Rec{F: f, C: [4]uint64{uint64(40 + i), uint64(i % 13), 1 + uint64(i%3), uint64(i % 2)}})
+					}
 				}
 				db = append(db, blk)
 			}
